@@ -247,6 +247,18 @@ func (w *World) runHarness(h *Harness) (res *Result) {
 		st.assume(wfAssumptions(ts, p.Type(), false))
 		args[i] = e.unflat(ts, p.Type())
 	}
+	// facts about package-level constants whose initialisers are outside the
+	// modelled subset (e.g. netip.MustParseAddr of a literal): trusted, listed
+	if gf := fn.Pkg.Func("verif_global_facts"); gf != nil {
+		gfr := e.newFrame(gf, nil)
+		gfr.spec = true
+		gfr.quiet = true
+		tmp := st.clone()
+		vals := e.finishCall(gfr, tmp, gfr, nil, nil)
+		st.pc = tmp.pc
+		st.assume(vals[0].term())
+		e.assumedExterns["verif_global_facts of package "+fn.Pkg.Pkg.Name()+" (values of package-level constants initialised by parsing literals)"] = true
+	}
 	e.execFunc(fr, args, st)
 	if h.Target != nil && !fr.hctx.holeDone {
 		res.Err = "contract error: harness never reached the call to its target"
